@@ -552,10 +552,25 @@ class IMAPClient:
                         )
                         self.ibuffer = []
                         self.ibuffer_size = 0
-                        # Drain the line terminator that follows the
-                        # literal declaration so we stay in sync.
+
+                        # To stay in sync: A client waits for our go-ahead
+                        # before it sends a synchronizing literal. We did not
+                        # give it, so nothing more of this command is coming
+                        # (the line terminator after the literal declaration
+                        # has already been read). A non-synchronizing literal
+                        # (rfc7888) has been sent already: skip its octets
+                        # and the rest of that command line.
                         #
-                        await self.reader.readuntil(self.LINE_TERMINATOR)
+                        if m.group(2):
+                            remaining = literal_str_length
+                            while remaining > 0:
+                                chunk = await self.reader.read(
+                                    min(remaining, self.stream_buffer_size)
+                                )
+                                if not chunk:
+                                    raise ConnectionResetError()
+                                remaining -= len(chunk)
+                            await self.reader.readuntil(self.LINE_TERMINATOR)
                         continue
 
                     # If this is a synchronizing string literal (does not have
@@ -1040,7 +1055,14 @@ class IMAPSubprocessInterface:
             while True:
                 if self.reader.at_eof():
                     break
-                msg = await self.reader.readuntil(b"\r\n")
+                try:
+                    msg = await self.reader.readuntil(b"\r\n")
+                except asyncio.LimitOverrunError as exc:
+                    # A line longer than the stream's limit (a message
+                    # may have very long lines). Pass on what is there
+                    # and carry on, instead of dropping the client.
+                    #
+                    msg = await self.reader.readexactly(exc.consumed)
                 await self.imap_client.push(msg)
         except (OSError, asyncio.IncompleteReadError, ConnectionResetError):
             pass
